@@ -118,7 +118,7 @@ class CookieHandler:
 
         if self.sign_key:
             signer = HMACSigner(algorithm=self.sign_alg)
-            mac = signer.sign(bytes_load + bytes_timestamp, self.sign_key.key)
+            mac = signer.sign(lv_pack(payload, timestamp).encode("utf-8"), self.sign_key.key)
         else:
             mac = b""
 
@@ -175,7 +175,7 @@ class CookieHandler:
             mac = base64.b64decode(b64_mac)
             verifier = HMACSigner(algorithm=self.sign_alg)
             if verifier.verify(
-                payload.encode("utf-8") + timestamp.encode("utf-8"),
+                lv_pack(payload, timestamp).encode("utf-8"),
                 mac,
                 self.sign_key.key,
             ):
@@ -200,7 +200,7 @@ class CookieHandler:
             if len(p) == 3:
                 verifier = HMACSigner(algorithm=self.sign_alg)
                 if verifier.verify(
-                    payload.encode("utf-8") + timestamp.encode("utf-8"),
+                    lv_pack(payload, timestamp).encode("utf-8"),
                     base64.b64decode(p[2]),
                     self.sign_key.key,
                 ):
